@@ -13,6 +13,7 @@ RULE = ("random parent domains as in C16 (inner lists of length 0-4, overlapping
         "cases, scalar attribute in some) x variant {the single row | in_ | contains | not_(in_) | not_(contains) | or_(in_, cond) | not_(and_(cond, in_)) | and_(cond, in_) | the list selected through set_of, alone and next to its members | its first element compared | membership after an earlier condition has bound the outer variable}; the parent a plain variable, a query with or_ alternatives, or a variable whose given domain holds no parent; a fifth of the cases concatenate two levels (concatenate(flatten(p.items).subs)) with inner objects shared between parents; of an "
         "outer variable over the 5 element objects in a permuted order; caching on/off; every query is evaluated twice and a fresh concatenate over the same objects once more (the value must not drift, the user's lists must stay as they were). Non-trivial: the concatenation has "
         ">= 2 elements from >= 2 parents and, for membership variants, the answer is neither empty nor all. distinct by hash.")
+RULE += " Size cases (every tier): concatenations of 80-200 run-time strings or numbers above the small-int cache over 25-45 parents, 60-600 candidates whose keys are equal to (not identical with) the elements, in_ and not_(in_), alone and joined with three tiers; evaluated twice."
 LEVEL_TEXT = ("Reference-model monitoring: the one-row result is compared element by element (identity, order, multiplicity) "
               "with the flat list built in plain Python; membership queries are compared as ordered lists of identities.")
 LEVEL_NOTE = "Trusted: the oracle (a list comprehension)."
